@@ -10,3 +10,4 @@ INVARIANT M_Outcome
 INVARIANT M_PoolClass
 CHECK_DEADLOCK FALSE
 CONSTANT KeyMergesWsIntoHttp = FALSE
+CONSTANT SetterDropsTls = FALSE
